@@ -74,7 +74,10 @@ fn apply_interner<T: Val>(it: &mut Interner<T>, don: &Interner<T>, op: &str, arg
             // a Symbol can only be obtained from an interner: take the i-th symbol of a large donor
             let key = don.elements()[i].clone();
             let sym = don.get(&key).unwrap();
-            assert_eq!(don.get(&key).unwrap().into_untracked().id as usize, i);
+            if don.get(&key).map(|s| s.into_untracked().id as usize) != Some(i) {
+                // the donor's own `get` misbehaves: report as the observable result
+                return json!(["resolve", i, "donor get() returned a wrong symbol"]);
+            }
             let r = it.resolve(sym).map(|t| t.name());
             json!(["resolve", i, r.into_iter().collect::<Vec<_>>()])
         }
